@@ -36,7 +36,7 @@ class Period(ModelMixin["Period"], Base):
     parent: Mapped["MultiPeriodStream"] = relationship(back_populates="periods")  # noqa
     ordering: Mapped[int] = mapped_column(sa.Integer(), nullable=False)
     stream_pk: Mapped[int] = mapped_column(sa.ForeignKey("Stream.pk"))
-    stream: Mapped[Stream] = relationship()
+    stream: Mapped[Stream] = relationship(back_populates='periods')
     start: Mapped[datetime.timedelta] = mapped_column(sa.Interval(), nullable=False)
     duration: Mapped[datetime.timedelta] = mapped_column(
         sa.Interval(), nullable=False)
